@@ -80,6 +80,10 @@ static void once_fn0(void){ U("U_OnceBody", 1, VON(&onces[0])); once_runs[0]++;
   U("U_YieldCall", 2, (long)cur_body(), 0L); myth_yield(); U("U_YieldRet", 1, (long)cur_body());
   U("U_OnceBodyEnd", 1, VON(&onces[0])); }
 static void once_fn1(void){ U("U_OnceBody", 1, VON(&onces[1])); once_runs[1]++; U("U_OnceBodyEnd", 1, VON(&onces[1])); }
+/* an init routine that blocks on a mutex (mutex 3, which other threads of the program hold across yields) */
+static void once_fn2(void){ int k = cur_body(); U("U_OnceBody", 1, VON(&onces[2])); once_runs[2]++;
+  lock_(k, 3); critical(k, 3); unlock_(k, 3);
+  U("U_OnceBodyEnd", 1, VON(&onces[2])); }
 
 static void *body_fn(void *a_){
   targ_t *a = a_; int k = a->k;
@@ -285,7 +289,7 @@ static int exec_op(int k, op_t *o, long *ret){
           yield_(k, myth_yield_option_local_first);
         }
         self_of[o->a] = 0; break; }
-    case OP_ONCE: U("U_OnceCall", 2, (long)k, ONID(o->a)); myth_once(&onces[o->a], o->a == 0 ? once_fn0 : once_fn1); U("U_OnceRet", 2, (long)k, ONID(o->a)); break;
+    case OP_ONCE: U("U_OnceCall", 2, (long)k, ONID(o->a)); myth_once(&onces[o->a], o->a == 0 ? once_fn0 : o->a == 2 ? once_fn2 : once_fn1); U("U_OnceRet", 2, (long)k, ONID(o->a)); break;
     case OP_FEWL: /* a = felock, b = status to wait for; c = 1: consume (count), 2: produce */
       U("U_FeWaitLockCall", 5, (long)k, FEID(o->a), (long)o->b, VMX(fes[o->a].mutex), VCV(&fes[o->a].cond[o->b]));
       myth_felock_wait_and_lock(&fes[o->a], o->b);
